@@ -208,6 +208,20 @@ def dict_hash(n: int, i0: int, i1: int, a0: int, a1: int) -> bool:
     return same_hash(Dict(OrderedDict(p)), Dict(OrderedDict(q)))
 
 
+def dict_eq_implies_hash(n: int, rev: bool, i0: int, i1: int, a0: int, a1: int, b0: int, b1: int) -> bool:
+    """
+    pre: 1 <= n <= 2 and 0 <= i0 <= 2 and 0 <= i1 <= 2 and i0 != i1
+    pre: all(0 < v < @NH@ for v in (a0, a1, b0, b1))
+    post: __return__
+    """
+    p, _ = dict_items(n, i0, i1, a0, a1)
+    q, _ = dict_items(n, i0, i1, b0, b1)
+    if rev:
+        q = q[::-1]
+    s, t = Dict(OrderedDict(p)), Dict(OrderedDict(q))
+    return (not (s == t)) or same_hash(s, t)      # whatever == decides about key order, hashing must follow it
+
+
 def dict_vs_non_space(n: int, i0: int, i1: int, a0: int, a1: int) -> bool:
     """
     pre: 1 <= n <= 2 and 0 <= i0 <= 2 and 0 <= i1 <= 2 and i0 != i1 and 0 < a0 and 0 < a1
